@@ -16,7 +16,8 @@ import (
 // that the rule has teeth and still recognises the code it was written for.
 //
 // mutants/<prop>.txt line format (fields separated by " || "):
-//   name || repo-relative file || regexp (Go RE2, (?s) allowed) || replacement || expected rule
+//
+//	name || repo-relative file || regexp (Go RE2, (?s) allowed) || replacement || expected rule
 type mutant struct {
 	name, file, pat, repl, rule string
 }
